@@ -6,9 +6,9 @@ HOOKS = {
     "add_only": True,
 }
 ENGINES = [
-    {"name": "coq-model", "path": "/verif/coq", "serves_properties": ["C01", "C02", "C07", "C08", "C12", "C13", "C14", "C17", "C18", "C20"],
+    {"name": "coq-model", "path": "/verif/coq", "serves_properties": ["C01", "C02", "C03", "C15", "C07", "C08", "C12", "C13", "C14", "C17", "C18", "C20"],
      "kind_free_text": "hand-written Gallina model (Model/), proofs (Proofs/), property theorems (Props/), Coq 8.16.1"},
-    {"name": "correspondence", "path": "/verif/harness", "serves_properties": ["C01", "C02", "C07", "C08", "C12", "C13", "C14", "C17", "C18", "C20"],
+    {"name": "correspondence", "path": "/verif/harness", "serves_properties": ["C01", "C02", "C03", "C15", "C07", "C08", "C12", "C13", "C14", "C17", "C18", "C20"],
      "kind_free_text": "Go harness driving /repo (built with -tags verif) + extracted OCaml model and oracle (ocaml/) on the same cases"},
 ]
 NOTES = ("Every check: rebuild Coq closure of Props/<id>.v, parse Print Assumptions, build harness against /repo's working tree, "
@@ -49,6 +49,21 @@ CHECKS = [
         "kept within years 1800-2200 (UnixNano range is C01's concern); sampling rate 0 modelled as a panic, excluded (n >= 1).",
         "Coq proof (induction over operation histories on an explicit object store) + differential correspondence",
         "DESIGN.md section 8 C14"),
+    chk("C15",
+        "20 Coq theorems (Props/C15.v) over per-recorder state machines (raw, single, grouped, interval, histogram x4, sync and shim wrappers; "
+        "clock readings, ticks and collector failures as inputs): the model meets an independently written policy specification for EVERY call "
+        "history: counters = wrap-around sums of increments since the last EndTest/Reset (histograms: the in-range records), gauges = last value "
+        "set, explicit durations summed (raw: overwritten), elapsed parts are differences of supplied clock readings hence bounded by the wall "
+        "clock, persistence exactly at the policy's moments, one Add per persisted point, EndTest returns exactly the collector failures and "
+        "rejected records of its window, after EndTest/Reset the state is fresh except gauges and the continuation behaves like a fresh "
+        "recorder. Correspondence: all histories of length <= 3/4 over 8 calls x 17 configurations + random + flusher-tick cases through the "
+        "real recorders with a snapshotting, selectively failing collector.",
+        "Trusted: as C12. Real time is not controllable: clock-derived fields (timestamps, elapsed part of Total) are checked by bounds around "
+        "the harness's own readings; interval gates exercised at 0 and 1 h. Deviations of the code from the Recorder interface comment "
+        "(unstamped increments dropped at EndTest, raw recorder re-persisting, interval recorder without Number++) are followed by the "
+        "reference model as the property demands ('per-implementation reference model'); listed in DESIGN.md.",
+        "Coq proof (induction over call histories against a field-by-field policy) + differential correspondence",
+        "DESIGN.md section 8 C15, Appendix B"),
     chk("C17",
         "13 Coq theorems (Props/C17.v) for the six uncompressed collector kinds, all batch sizes, EVERY operation history and every writer fault "
         "schedule, over arbitrary documents: C17_log (writer records and Resolve are exactly metadata-then-accepted-samples, verbatim, once each, in "
@@ -110,6 +125,20 @@ CHECKS = [
         "to have fewer than 10^40 elements (decimal index rendering of the model).",
         "Coq proof (induction over value trees; injectivity of dot-joined paths) + differential correspondence",
         "DESIGN.md section 8 C02"),
+    chk("C03",
+        "Coq theorems (Props/C03.v) against an INDEPENDENT format specification (Spec/FtdcSpec.v, written from the format description; shares "
+        "only byte/BSON primitives with the implementation model): C03_spec_roundtrip (every legal encoding - any partition of zero runs incl. "
+        "split and boundary-crossing runs, int32/int64/double type fields, interleaved metadata and unknown documents - decodes to the encoded "
+        "samples), C03_encode_canonical (for every compressing collector and same-schema input the emitted documents are exactly the spec's "
+        "CANONICAL chunk documents of the sample groups: header fields exact, length prefix = payload length, payload byte-identical with the "
+        "reference sample verbatim and every zero run maximal; the independent decoder recovers the samples), C03_encode_bytes (no trailing "
+        "bytes), C03_decode_complete (the model of the library's reader decodes every spec-conformant stream to exactly its samples; loop "
+        "invariant of the zero-run carry against the spec's run expansion). Correspondence in both directions: collector output decoded by the "
+        "extracted spec decoder; streams drawn from the extracted spec encoder (choice lists) fed to all library readers.",
+        "Trusted: as C01; zlib itself. Known finding D1 (timestamp seconds) excluded in the decode direction. `type` given as decimal128 is "
+        "skipped by the library (the spec covers int32/int64/double). Non-minimal varints are covered by the theorem but not generated.",
+        "Coq proof (independent spec, loop invariant, composition with the C01 invariants) + two-way differential correspondence",
+        "DESIGN.md section 8 C03"),
     chk("C07",
         "Coq theorems (Props/C07.v) for the five compressing collector kinds, every chunk size and EVERY operation history (Add, unreadable Add, "
         "Resolve, Reset, Flush, SetMetadata, Info; any mix of schemas the collector can tell apart): C07_log — after every operation "
